@@ -56,7 +56,22 @@ def find_fn(tree: ast.Module, qual: str):
 def mutants(fn: ast.FunctionDef):
     """Yield (description, mutated function AST)."""
     nodes = list(ast.walk(fn))
+    ann = set()  # annotations are not behaviour
+    for n in nodes:
+        roots = []
+        if isinstance(n, ast.arg) and n.annotation is not None:
+            roots.append(n.annotation)
+        if isinstance(n, (ast.FunctionDef, ast.AsyncFunctionDef)) and n.returns is not None:
+            roots.append(n.returns)
+        if isinstance(n, ast.AnnAssign):
+            roots.append(n.annotation)
+        if isinstance(n, ast.Call) and isinstance(n.func, ast.Name) and n.func.id == "cast" and n.args:
+            roots.append(n.args[0])
+        for r in roots:
+            ann.update(id(x) for x in ast.walk(r))
     for i, n in enumerate(nodes):
+        if id(n) in ann or (isinstance(n, ast.Call) and isinstance(n.func, ast.Name) and n.func.id == "cast"):
+            continue
         if isinstance(n, ast.Compare) and len(n.ops) == 1 and type(n.ops[0]) in CMP:
             m = copy.deepcopy(fn)
             t = list(ast.walk(m))[i]
@@ -195,11 +210,11 @@ def main():
                 continue
             new_src = "".join(lines[:first]) + textwrap.indent(text, indent) + "\n" + "".join(lines[last:])
             jobs.append((pid, rel, new_src, base_v, base_u))
-            meta.append((rel, qual, desc))
+            meta.append((rel, qual, desc, first, last, textwrap.indent(text, indent) + "\n"))
             n += 1
     with ProcessPoolExecutor(14) as ex:
         res = list(ex.map(run_one, jobs, chunksize=4))
-    rows = [{"module": m[0], "function": m[1], "mutant": m[2], "outcome": r[0], "detail": r[1]} for m, r in zip(meta, res)]
+    rows = [{"module": m[0], "function": m[1], "mutant": m[2], "outcome": r[0], "detail": r[1], "first": m[3], "last": m[4], "text": m[5]} for m, r in zip(meta, res)]
     if "--all" in args:
         # survivors are shown to every other checker as well (a defect may belong to a sibling property)
         others = [f"C{i:02d}" for i in range(1, 21) if f"C{i:02d}" != pid]
